@@ -58,17 +58,11 @@ def run(ctx):
     ctx.ob(init is not None and show(init.get('next_operation_id')) == '1', 'ids start at 1', 'opid-init', loc=new.loc())
     # user submissions go to the back of the user queue (table shared with R-C05-4)
     hue = ctx.fn('ProtocolState::handle_user_event')
-    rows = {}
-    for cs in hue.calls('ProtocolState::enqueue_operation'):
-        a = cs.arg(1)
-        if a[0] == 'proj' and a[1][0] == 'phi':
-            for dbb, de in hue.phi_defs(a[1][1]):
-                if de[0] == 'agg':
-                    d = dict(de[3])
-                    g = [x for x in guard_strs(hue, dbb) if re.match(r'^[\w.]*event is \w+$', x)]
-                    rows[g[0].split(' is ')[1] if g else '?'] = (show(d['1']), show(d['2']))
+    from . import shared
+    uet = shared.user_event_table(F, hue) or {}
     for k in ('Publish', 'Subscribe', 'Unsubscribe'):
-        ctx.ob(rows.get(k) == ('ProtocolQueueType::User{}', 'ProtocolEnqueuePosition::Back{}'), 'user %s is appended to the back of the user queue' % k, 'intake|' + k, loc=hue.loc())
+        row = uet.get(k) or {'queue': set(), 'position': set()}
+        ctx.ob(row['queue'] == {'User'} and row['position'] == {'Back'}, 'user %s is appended to the back of the user queue (%s/%s)' % (k, sorted(row['queue']), sorted(row['position'])), 'intake|' + k, loc=hue.loc())
 
     ctx.rule('R-C10-3', 'T3 + T6', 'every exit of CONNACK session handling has re-sorted both the resubmit and the user queue; the sort helper rotates the ring buffer contiguous and sorts it; nothing is dequeued between close and CONNACK')
     sess = ctx.fn('ProtocolState::apply_session_present_to_connection')
